@@ -35,9 +35,15 @@ typedef struct {
   unsigned funcnt;           /* function entries seen by tid inside its current operation */
 } sched_rec;
 
-/* Prepare one controlled run of nthreads workers.  prefix[0..nprefix) are the choices to replay; if expect_nen is
- * not NULL it holds the enabled-set size recorded for each prefix point (checked -> exit 3 on mismatch). */
-void sched_begin(int nthreads, const int *prefix, int nprefix, const unsigned char *expect_nen);
+/* Identity of a scheduling point: enabled-set size, kind, thread and its position.  Recorded by the explorer and
+ * handed back with the prefix, so that a replay that reaches a different point is detected, not silently accepted. */
+static inline unsigned sched_sig(const sched_rec *r) {
+  return (unsigned)r->nen | ((unsigned)r->kind << 3) | ((unsigned)(r->tid + 1) << 5) | (((unsigned)r->opidx << 8) ^ (r->funcnt << 12));
+}
+
+/* Prepare one controlled run of nthreads workers.  prefix[0..nprefix) are the choices to replay; if expect_sig is
+ * not NULL it holds sched_sig() of the point recorded for each prefix entry (checked -> exit 3 on mismatch). */
+void sched_begin(int nthreads, const int *prefix, int nprefix, const unsigned *expect_sig);
 /* Worker side. */
 void sched_thread_start(int tid); /* first call of a worker: parks until the scheduler hands it the token */
 void sched_op_boundary(void);     /* between two operations: bumps opidx, resets funcnt, scheduling point */
@@ -52,6 +58,13 @@ const sched_rec *sched_trace(void);
 /* Free-running mode helper (no scheduler): spin barrier that creates no sanitizer-visible happens-before. */
 void sched_barrier_init(int n);
 void sched_barrier_wait(void);
+
+/* Worker pool helper (plain build only; the TSan build starts fresh threads for every schedule): pool threads sleep
+ * in sched_pool_wait() until the generation word changes; it returns the number of workers of the new generation
+ * (pool thread t takes part iff t < that number).  The count travels in the same word as the generation, so a slow
+ * pool thread can never pair an old generation with a newer job.  Only main calls sched_pool_release(). */
+int sched_pool_wait(int *seen);
+void sched_pool_release(int nthreads);
 
 /* scenario / schedule description printed with every hard error (set by the harness) */
 void sched_set_context(const char *text);
